@@ -27,11 +27,12 @@ func tls(name string) string {
 func probe(name string) string { return filepath.Join(core.VerifDir, "harness", "corpus", name) }
 
 type stepRes struct {
-	Err      string `json:"err"`
-	EOF      bool   `json:"eof"`
-	Panic    string `json:"panic"`
-	Consumed int    `json:"consumed"`
-	Dump     *struct {
+	Err       string `json:"err"`
+	EOF       bool   `json:"eof"`
+	Panic     string `json:"panic"`
+	ReadPanic bool   `json:"readpanic"`
+	Consumed  int    `json:"consumed"`
+	Dump      *struct {
 		TL1     []int  `json:"tl1"`
 		TL1Err  string `json:"tl1err"`
 		TL1B    []int  `json:"tl1b"`
@@ -780,8 +781,10 @@ func total08(c *core.Ctx, b *Built, cp Corpus, p *valPayload, firstErr *error) {
 			return
 		}
 		s := r.Steps[0]
-		if s.Panic != "" {
+		if s.Panic != "" && s.ReadPanic {
 			c.Violate(key+"/panic", fmt.Sprintf("reader panics on %s: %s", what, s.Panic), map[string]any{"corpus": cp, "step": step, "type": p.Tn})
+		} else if s.Panic != "" {
+			c.Add("writer_panics_after_accepted_read_seen", 1) // a writer failing on what a reader accepted: C03/C06 territory
 		}
 		if cp.Sanity && s.Alloc > allocBound(n) {
 			c.Violate(key+"/alloc", fmt.Sprintf("reader allocated %d bytes for an input of %d bytes (%s)", s.Alloc, n, what), map[string]any{"corpus": cp, "step": step, "type": p.Tn})
